@@ -319,6 +319,17 @@ func genRouteCase(w *wire.World, g *sip.Gen, i int) *routeCase {
 		}
 	}
 	nextEntry := func() (wire.RouteEntry, string) {
+		if g.R.Intn(12) == 0 {
+			// a next hop whose URI looks like a name of the service (user and host match one of its
+			// patterns, the port is the listener's number): it is a Route entry, not a Request-URI
+			port := []int{0, 5060}[g.R.Intn(2)]
+			text := fmt.Sprintf("<sip:rx%d-%s@regex.verif.test", sidx, strings.TrimSuffix(onlyLower("-"+g.Alnum(2, 6)+"@")[1:], "@"))
+			if port > 0 {
+				text += fmt.Sprintf(":%d", port)
+			}
+			text += ";lr>"
+			return wire.RouteEntry{Text: text, Host: "regex.verif.test", Port: port, Transport: ""}, "next:looks-like-a-service-name/none"
+		}
 		h := w.Hops[g.R.Intn(len(w.Hops))]
 		host := h.IP
 		hs := "ip"
